@@ -75,9 +75,24 @@ def empty_population_specs(ctx):
     return specs
 
 
+def tiny_population_specs(ctx):
+    """ES populations of 1-3 candidates (n_search / n_search_iter tiny) with the optimum on or beyond a bound: single candidates land outside the
+    mesh-rounded box and have to be projected like any other."""
+    from .. import gen
+    rng = ctx.sub_rng("c18tiny")
+    specs = []
+    for ns, nsi in ((2, 2), (4, 2), (2, 1), (6, 2), (3, 1), (2, 2)):
+        sp = gen.make_spec(rng, D=rng.choice([1, 2, 2]), mode=rng.choice(["det", "det", "decl"]), geom=rng.choice(["box", "tight"]), cons=None,
+                           opt_loc=rng.choice(["on_bound", "outside"]), target="quad")
+        sp["options"] = {"n_search": ns, "n_search_iter": nsi, "max_fun_evals": (sp["D"] + 40) if sp["mode"] == "det" else 80, "noise_final_samples": 0}
+        specs.append(sp)
+    return specs
+
+
 def run_level(ctx, rep):
     if not getattr(ctx, "_replaying", False):
         runlevel.with_extra(ctx, "c18empty", lambda: empty_population_specs(ctx))
+        runlevel.with_extra(ctx, "c18tiny", lambda: tiny_population_specs(ctx))
     if not getattr(ctx, "_replaying", False):
         runlevel.scripted_controller_runs(ctx, "c18script", 8 if ctx.quick else 60, want=("ctl", "filt", "gp"))
     traces = runlevel.get_pool(ctx)
